@@ -315,6 +315,16 @@ impl<T> Decompressor<T> where T: NumberLike {
   /// Will return an error if there are any compatibility, corruption,
   /// or insufficient data issues.
   pub fn simple_decompress(&mut self) -> QCompressResult<Vec<T>> {
+    // the header and chunks decoded before an error must not stay consumed
+    let initial_state = self.state.clone();
+    let res = self.simple_decompress_dirty();
+    if res.is_err() {
+      self.state = initial_state;
+    }
+    res
+  }
+
+  fn simple_decompress_dirty(&mut self) -> QCompressResult<Vec<T>> {
     // cloning/extending by a single chunk's numbers can slow down by 2%
     // so we just take ownership of the first chunk's numbers instead
     let mut res: Option<Vec<T>> = None;
